@@ -143,7 +143,7 @@ class Check(CheckBase):
     level = "exploration"
     title = "Left/right pairs merge into one stereo file; no sample is lost or duplicated"
     rule = ("all ordered k-tuples of sibling names (every ordering of every multiset) over a near-collision alphabet: AKAI "
-            "volume, 14 names, k<=3 (quick) / k<=4 (thorough), plus all 4-tuples over the reduced 6-name alphabet; Roland "
+            "volume, 14 names, k<=3 (quick) / k<=4 (thorough), plus all 4-tuples over the reduced 6-name alphabet and over {A-L, A -R, A -L, A-R}; Roland "
             "performance, 11 names (incl. lower-case 'l' / 'r' endings, which are not L/R forms), k<=2 (quick) / k<=3 (thorough); equal lengths (10 frames), and unequal lengths, differing sample "
             "rates, single-frame samples and samples of 2049 frames (one more than the transcoder block) for k<=2 (quick) / "
             "all (thorough); AKAI header names that differ from the directory names (rotated among the siblings / 'DRUM L', 'DRUM R') "
@@ -176,6 +176,9 @@ class Check(CheckBase):
         for k in (2, 3):
             for t in itertools.product(san, repeat=k):
                 cases.append({"fmt": "akai", "names": list(t), "lens": "eq", "sanitised": True})
+        # duplicated halves with different separators (the '(n)' given to a duplicate must not create a new pair)
+        for t in itertools.product(["A-L", "A -R", "A -L", "A-R"], repeat=4):
+            cases.append({"fmt": "akai", "names": list(t), "lens": "eq"})
         if self.quick:
             for t in itertools.product(AKAI_N4, repeat=4):
                 cases.append({"fmt": "akai", "names": list(t), "lens": "eq"})
